@@ -1294,7 +1294,7 @@ def run(out: Outcome) -> None:  # noqa: PLR0912, PLR0915
     n_conc = 0
     concrete.sort(key=lambda cx: (len(cx[0]["atoms"]), len(cx[0]["grammar"]), str(cx[1].get("code_point"))))
     for c, x in concrete:
-        sig = (c["family"], x["mode"] in ("opt", "optgen"), x["what"].split(":")[0].split(" on ")[0], x.get("string", False))
+        sig = (c["family"], x["what"].split(":")[0].split(" on ")[0], x.get("string", False))
         if sig in reported or n_conc >= 8:
             continue
         reported.add(sig)
@@ -1335,6 +1335,10 @@ def run(out: Outcome) -> None:  # noqa: PLR0912, PLR0915
         out.known.append(FINDING_TEXT)
 
     n_cases = len(results)
+    mism_summary: dict = {}
+    for c, x in concrete:
+        k = f"{c['family']}/{x['mode']}"
+        mism_summary[k] = mism_summary.get(k, 0) + 1
     out.coverage = {
         **proof_coverage(info, "C12"),
         "evaluations": evals,
@@ -1362,6 +1366,7 @@ def run(out: Outcome) -> None:  # noqa: PLR0912, PLR0915
         "skipped_frontend_count": len(skipped),
         "correspondence_mismatches": len(corr),
         "reference_mismatches": len(concrete) + len(class_concrete),
+        "reference_mismatches_by_family_mode": mism_summary,
         "escapes": esc_info,
         "tables_regenerated": exp["changed"],
         "proof_stage_s": round(t_proof, 1),
